@@ -31,7 +31,7 @@ def _gen_terms(rs, names: List[str], dom: int, count: int, must: Optional[List[s
     if not names:
         return out
     for _ in range(count):
-        k = rs.choice([1, 1, 2, 2, 3])
+        k = rs.choice([1, 1, 2, 2, 3, 3, 4])
         k = min(k, len(names))
         sup = rs.sample(names, k)
         if must and rs.random() < 0.7 and not any(s in must for s in sup):
@@ -73,8 +73,8 @@ def _gen_contract(rs, names: List[str], dom: int, avoid_out: Optional[set] = Non
         outs.append(rs.choice(names))
     rs.shuffle(ins)
     rs.shuffle(outs)
-    a = _gen_terms(rs, ins, dom, rs.choice([0, 1, 1, 2, 3]))
-    g = _gen_terms(rs, ins + outs, dom, rs.choice([0, 1, 1, 2, 2, 3]), must=outs)
+    a = _gen_terms(rs, ins, dom, rs.choice([0, 1, 1, 2, 3, 4]))
+    g = _gen_terms(rs, ins + outs, dom, rs.choice([0, 1, 1, 2, 2, 3, 4]), must=outs)
     return {"in": ins, "out": outs, "a": a, "g": g, "simplify": rs.random() < 0.25}
 
 
@@ -129,7 +129,7 @@ def gen_plan(seed: int) -> Dict:
     dom = 3 if (n <= 5 and rs.random() < 0.2) else 2
     names = ["v%d" % i for i in range(n)]
     pool: List[Dict] = []
-    npool = rs.choice([2, 2, 3, 3, 4])
+    npool = rs.choice([2, 2, 3, 3, 4, 5])
     first = _gen_contract(rs, names, dom)
     pool.append(first)
     for _ in range(npool - 1):
@@ -138,7 +138,7 @@ def gen_plan(seed: int) -> Dict:
     ifaces: List[Optional[Dict]] = [{"in": list(c["in"]), "out": list(c["out"])} for c in pool]
     ops: List[Dict] = []
     composed: List[Tuple[int, int, int]] = []  # (result index, l, r)
-    nops = rs.choice([1, 2, 2, 3, 3, 4])
+    nops = rs.choice([1, 2, 2, 3, 3, 4, 5, 6])
     for _ in range(nops):
         kind = rs.choices(["compose", "quotient", "merge"], [0.45, 0.37, 0.18])[0]
         best = None
@@ -192,7 +192,7 @@ def gen_plan(seed: int) -> Dict:
     friendliness = rs.choice([0.3, 0.5, 0.5, 0.7, 0.85, 1.0])
     ta = env.stream(seed, "adversary")
     tape: List[int] = []
-    for _ in range(48):
+    for _ in range(64):
         if ta.random() < friendliness:
             tape.append(0)
         else:
